@@ -52,3 +52,4 @@ CORR["bfgs"] = _wrap_agent("harness.corr.bfgs", "BFGS matrix model vs update_lbf
 CORR["cauchy"] = _wrap_agent("harness.corr.cauchy", "Cauchy-point model vs get_cauchy_point")
 CORR["subspace"] = _wrap_agent("harness.corr.subspace", "subspace-step model vs get_freev + subspace_minimization")
 CORR["dcsrch"] = _wrap_agent("harness.corr.dcsrch", "DCSRCH model vs scipy.optimize._dcsrch.DCSRCH")
+CORR["fcauchy"] = _wrap_agent("harness.corr.fcauchy", "binary64 Cauchy-point model vs get_cauchy_point (bit-exact)")
